@@ -1,20 +1,30 @@
-"""TLC run of the design model Observer.tla for the observer properties."""
+"""TLC runs of the design model Observer.tla for the observer properties (exhaustive, small constants).
+
+Positive configurations must hold; the negative ones (a repaired defect switched back on) must FAIL with exactly the
+named invariant -- that is the demonstration that the invariants are not vacuous."""
 from harness import tlc
+
+POS = {
+    "C04": ["Observer_dispatch.cfg", "Observer_callback.cfg"],
+    "C05": ["Observer_dispatch.cfg", "Observer_callback.cfg"],
+    "C06": ["Observer_lifecycle.cfg", "Observer_stoprace.cfg", "Observer_live.cfg"],
+    "C13": ["Observer_registry.cfg", "Observer_startrace.cfg"],
+}
+NEG = {
+    "C06": [("Observer_neg_D12.cfg", "C06_AllExitedAfterJoin")],
+    "C13": [("Observer_neg_D3.cfg", "C13_NoStaleHandlers"), ("Observer_neg_D10.cfg", "C13_EveryScheduledWatchRuns")],
+}
 
 
 def run_design(c, prop):
-    import os
-
-    if not os.path.exists(os.path.join(tlc.SPEC_DIR, "Observer.tla")):
-        c.note("Observer.tla not built yet")
-        return
-    cfgs = {"C04": ["Observer_dispatch.cfg"], "C05": ["Observer_dispatch.cfg"], "C06": ["Observer_lifecycle.cfg", "Observer_live.cfg"],
-            "C13": ["Observer_registry.cfg"]}[prop]
-    for cfg in cfgs:
-        if not os.path.exists(os.path.join(tlc.SPEC_DIR, cfg)):
-            continue
+    for cfg in POS.get(prop, []):
         r = tlc.run_tlc("Observer", cfg, workers=c.jobs, timeout=3000, heap="8g")
         c.add_tlc("Observer:" + cfg, r)
         if not r.ok:
             c.machinery_failure(f"design spec {cfg} violated: {r.violated} {r.errors[:2]}")
         c.note(f"TLC {cfg}: {r.distinct} distinct states, depth {r.depth}, {r.wall:.1f}s")
+    for cfg, inv in NEG.get(prop, []):
+        r = tlc.run_tlc("Observer", cfg, workers=c.jobs, timeout=3000, heap="8g")
+        if inv not in r.violated:
+            c.machinery_failure(f"vacuity: {cfg} (defect switched back on) did not violate {inv}: {r.summary()}")
+        c.note(f"TLC {cfg}: {inv} violated as expected (the invariant is sensitive to the repaired defect)")
